@@ -141,6 +141,9 @@ def replay_and_validate(ctx, exe, batches, tracespec, env_flags, label="b", jobs
     """batches: list of lists of script commands (each batch = several executions separated by reset).
     Returns list of per-batch result dicts; deviations are appended to ctx.devs."""
     os.makedirs(ctx.work, exist_ok=True)
+    # a crash (library or Eigen assertion, segmentation fault) of the real classes under a generated script is a violation of the property
+    # being checked: every script consists of calls the public interface allows
+    crash_prop = crash_prop or ctx.prop
 
     def one(ib):
         i, cmds = ib
